@@ -99,7 +99,15 @@ impl C16 {
             ctx.probe("sound_toggled_by_setter");
             e.set_sound(false);
         }
-        let tape_img = sc.ops.iter().find(|o| o.k == "tape").map(|o| o.b.clone()).unwrap_or_default();
+        let big = sc.get("big") != 0 && sc.get("content") == 3;
+        let tape_img = if big {
+            // a tape longer than 256 KiB (seven blocks of 40000 bytes), generated from the content seed
+            let mut r = Rng::new(sc.get("content_seed") as u64 ^ 0xB16);
+            let blocks: Vec<Vec<u8>> = (0..7).map(|k| tape::std_block(0xFF, &{ let mut v = r.bytes(40000); v[0] = k as u8; v })).collect();
+            tape::make_tap(&blocks)
+        } else {
+            sc.ops.iter().find(|o| o.k == "tape").map(|o| o.b.clone()).unwrap_or_default()
+        };
         // read sizes of the chunking asset: mostly small (short reads inside every buffer refill)
         let chunk = [1usize, 2, 3, 5, 7, 13, 23, 32, 46, 64, 100, 127, 129, 1000, 4096, 40000][(d.seed % 16) as usize];
         // content
@@ -127,8 +135,23 @@ impl C16 {
                 if m128 {
                     prog.extend_from_slice(&[0x01, 0xFD, 0x7F, 0x3E, 0x10, 0xED, 0x79]); // LD BC,7FFD; LD A,10; OUT (C),A
                 }
+                if big {
+                    ctx.probe("tape_longer_than_256k");
+                    // program and stack below the load area 0x6000..0xFC40, every block loaded over the previous one
+                    for _ in 0..7 {
+                        prog.extend_from_slice(&[0xDD, 0x21, 0x00, 0x60, 0x11, 0x40, 0x9C, 0x3E, 0xFF, 0x37, 0xCD, 0x56, 0x05]);
+                    }
+                    prog.extend_from_slice(&[0x18, 0xFE]);
+                    write_mem(&mut e, 0x5D00, &prog);
+                    let mut st = crate::cpustate::CpuState::default();
+                    st.pc = 0x5D00;
+                    st.sp = 0x5FF0;
+                    st.im = 1;
+                    st.to_impl(e.verif_cpu());
+                    prog.clear();
+                }
                 let mut dest = 0x9000u16;
-                for b in blocks.iter().take(3) {
+                for b in blocks.iter().take(if big { 0 } else { 3 }) {
                     let len = b.len().saturating_sub(2) as u16;
                     let flag = b.first().copied().unwrap_or(0xFF);
                     prog.extend_from_slice(&[0xDD, 0x21, dest as u8, (dest >> 8) as u8]); // LD IX,dest
@@ -136,13 +159,15 @@ impl C16 {
                     prog.extend_from_slice(&[0x3E, flag, 0x37, 0xCD, 0x56, 0x05]); // LD A,flag; SCF; CALL 0556
                     dest = dest.wrapping_add(0x400);
                 }
-                prog.extend_from_slice(&[0x18, 0xFE]); // JR $
-                write_mem(&mut e, 0x8000, &prog);
-                let mut st = crate::cpustate::CpuState::default();
-                st.pc = 0x8000;
-                st.sp = 0x8F00;
-                st.im = 1;
-                st.to_impl(e.verif_cpu());
+                if !big {
+                    prog.extend_from_slice(&[0x18, 0xFE]); // JR $
+                    write_mem(&mut e, 0x8000, &prog);
+                    let mut st = crate::cpustate::CpuState::default();
+                    st.pc = 0x8000;
+                    st.sp = 0x8F00;
+                    st.im = 1;
+                    st.to_impl(e.verif_cpu());
+                }
             }
             2 => {
                 let names: &[&str] = if m128 { &REPO_SNAS_128K } else { &REPO_SNAS_48K };
@@ -212,6 +237,13 @@ impl C16 {
                 1 => {
                     e.set_speed(EmulationMode::FrameCount(n));
                     ctx.fault("host_slice(n)");
+                    // a frame-count request is not a timed one: whatever the host stopwatch reads (also far
+                    // beyond the limit passed along), exactly n frames are emulated
+                    if d.p2 != 0 {
+                        ctx.fault("stopwatch_jump");
+                        let readings: Vec<u64> = (0..n + 2).map(|_| *drng.pick(&[0u64, 999, 1001, 5_000_000, 3_600_000_000])).collect();
+                        set_clock_script(ClockScript::List(readings));
+                    }
                 }
                 _ => {
                     e.set_speed(EmulationMode::Max);
@@ -237,7 +269,7 @@ impl C16 {
             let mut done = 0usize;
             let mut guard = 0u64;
             while done < n {
-                let limit = if d.mode == 2 { Duration::from_micros(1000) } else { LONG };
+                let limit = if d.mode == 2 || (d.mode == 1 && d.p2 != 0) { Duration::from_micros(1000) } else { LONG };
                 let r = e.emulate_frames(limit);
                 guard += 1;
                 match r {
@@ -332,7 +364,7 @@ impl Property for C16 {
         vec!["host inputs are applied only at frame boundaries (as the property states)", "audio streams are compared only between drivings that drain at every frame boundary"]
     }
     fn expected_probes(&self) -> Vec<&'static str> {
-        vec!["cmp_framecount_n", "cmp_max_mode", "cmp_breakpoints", "cmp_sound_off", "cmp_asset_kind", "cmp_repeat", "audio_compared", "loader_program", "sound_toggled_by_setter", "fastload_set_after_construction", "trap_at_frame_end"]
+        vec!["cmp_framecount_n", "cmp_max_mode", "cmp_breakpoints", "cmp_sound_off", "cmp_asset_kind", "cmp_repeat", "audio_compared", "loader_program", "sound_toggled_by_setter", "fastload_set_after_construction", "trap_at_frame_end", "tape_longer_than_256k"]
     }
 
     fn gen(&self, rng: &mut Rng, tier: Tier, _idx: u64) -> Scenario {
@@ -359,6 +391,10 @@ impl Property for C16 {
             sc.op("ev", &[0, 11, 0, 0]);
             if rng.chance(1, 3) {
                 sc.set("align", rng.range(1, 3));
+                sc.set("fastload", 1);
+            } else if rng.chance(1, 4) {
+                // a tape longer than 256 KiB, fast-loaded block by block
+                sc.set("big", 1);
                 sc.set("fastload", 1);
             } else if rng.bool() {
                 sc.op("ev", &[0, 7, 0, 0]);
